@@ -821,9 +821,10 @@ func TestCheck(t *testing.T) {
 	}
 	// the value dimension of the single-record writes, on all six key shapes of the node in both tiers
 	nodeKeys := []string{"d", "l", "last-submitted-header-height", "last-submitted-data-height", "rhb/1/h", "rhb/1/d"}
-	valCfg := func(crash bool) map[string]any {
-		c := map[string]any{"metadata_keys": nodeKeys, "metadata_values": []string{"01..", "02..", "empty slice", "nil"},
-			"states": []string{"all fields zero", "full 1", "full 2", "genesis-like (chain id and initial height only)"},
+	badgerKeys := vf.Pick(r, []string{"l", "rhb/1/d"}, []string{"l", "d", "rhb/1/d"})
+	valCfg := func(keys []string, crash bool) map[string]any {
+		c := map[string]any{"metadata_keys": keys, "metadata_values": []string{"01..", "02..", "empty slice", "nil"},
+			"states":     []string{"all fields zero", "full 1", "full 2", "genesis-like (chain id and initial height only)"},
 			"set_height": []uint64{0, 1}, "block_heights": []uint64{0, 1}, "block_shapes": []string{shapeFull.String(), shapeEmpty.String()}}
 		if crash {
 			c["crash_before_write_of"] = "each metadata value under key l; the zero and the genesis-like state; both block shapes at height 0"
@@ -831,12 +832,16 @@ func TestCheck(t *testing.T) {
 		return c
 	}
 	searches = append(searches,
-		search{name: "values", acts: valuesAlphabet(nodeKeys, "l", true), minH: 0, maxH: 1, metaKeys: nodeKeys, depth: vf.Pick(r, 3, 4), cfg: valCfg(true)},
-		search{name: "values-badger", acts: valuesAlphabet(nodeKeys, "l", false), minH: 0, maxH: 1, metaKeys: nodeKeys, depth: vf.Pick(r, 2, 3), cfg: valCfg(false), badger: true})
+		search{name: "values", acts: valuesAlphabet(nodeKeys, "l", true), minH: 0, maxH: 1, metaKeys: nodeKeys, depth: vf.Pick(r, 4, 5), cfg: valCfg(nodeKeys, true)},
+		search{name: "values-badger", acts: valuesAlphabet(badgerKeys, "l", false), minH: 0, maxH: 1, metaKeys: badgerKeys, depth: vf.Pick(r, 2, 3), cfg: valCfg(badgerKeys, false), badger: true})
 	r.Assume = []string{
 		"datastore contract: a single Put/Delete and one Batch.Commit are atomic and durable (go-datastore/badger), modelled by the logging KV double",
 		"by-hash reads of a superseded header are unspecified",
 		"metadata keys are the shapes the node uses (d, l, last-submitted-*, rhb/<h>/{h,d})",
+		"values written by the single-record writes are enumerated as kinds, not as arbitrary bytes: metadata ∈ {two non-empty 8-byte values, empty slice, nil}; state ∈ {all fields zero, two states with every field set, genesis-like}; set height ∈ {0..max}; a store whose behaviour depends on another property of the value (a particular length or byte pattern) is outside the bound",
+		"a metadata read after a write of an empty value (empty slice or nil) must SUCCEED and return a zero-length value (nil and empty slice are not told apart); not-found is a different answer. That is what GetMetadata does on the unchanged tree over the double and over real badger (values-badger), and the callers tell the two apart (block/manager.go logs a failed read of LastBatchDataKey as an error after genesis and persists an empty batch-cursor list under it; the RPC store server turns not-found into an error)",
+		"state reads are compared on every field of types.State (version, chain id, initial height, last block height and time, DA height, last results hash, app hash); nil and empty byte strings are not told apart",
+		"values-badger runs on the real badger4 datastore (store.NewDefaultKVStore in a scratch directory) without crash injection and without merging histories; it checks the same oracle and thereby that the logging double agrees with badger on empty values and on close + reopen",
 		"SaveBlockData arguments are enumerated as shapes, not as arbitrary bytes: 3 headers (two data hashes and the no-transactions hash), 3 signature values including the empty one used independently for header.Signature and for the signature argument, 5 data values (two transaction lists with/without metadata, no transactions with/without metadata); a store whose behaviour depends on a relation between arguments that these shapes do not realise is outside the bound",
 	}
 	if r.ReplayPath() != "" {
@@ -941,20 +946,25 @@ func TestCheck(t *testing.T) {
 	sort.Strings(relSamples)
 	r.Finish(vf.Coverage{
 		Evaluations: totTrans, DistinctNontrivial: int64(r.DistinctOutcomes()), States: totStates, Transitions: totTrans,
-		Rule: "separate explicit-state searches (base, relations; thorough adds relations-crash), each over every operation history up to its depth bound over its alphabet, executed on a fresh real DefaultStore and compared getter by getter " +
+		Rule: "separate explicit-state searches (base, relations, values, values-badger; thorough adds relations-crash), each over every operation history up to its depth bound over its alphabet, executed on a fresh real DefaultStore and compared getter by getter " +
 			"(block, whole signed header, signature by height; block and signature by hash; height, state, metadata) with a map model after every history. " +
-			"base: save block h×{same,same-hash-other-signature,other-hash} with signature argument = header.Signature, set height, update state, set metadata, reopen, " +
-			"crash before the k-th durable write of a save/metadata/state write then reopen. " +
+			"base: save block h×{same,same-hash-other-signature,other-hash} with signature argument = header.Signature, set height, update state, " +
+			"set metadata key × value ∈ {X, Y, empty slice, nil} (so every overwrite order non-empty/empty/nil on a key, interleaved with all other operations), reopen, " +
+			"crash before the k-th durable write of a save/metadata (non-empty and empty value)/state write then reopen. " +
 			"relations: saves whose ARGUMENTS are spelled out — header ∈ {data hash A, data hash B, the no-transactions hash} × header.Signature ∈ {empty,P,Q} × signature argument ∈ {empty,P,Q} " +
 			"(equal / different / empty, both ways) × data ∈ {txs A without metadata, txs A, txs B, no txs without metadata (empty value), no txs with metadata} (matching / not matching header.DataHash), " +
 			"same values at every height — as saves and resaves in any order, with reopen and with a crash before the k-th (k<4) durable write of such a save " +
 			"(which heights carry every shape or only the 18 signature-axis shapes = header.Signature × argument on one matching non-empty and one matching empty block, and which saves can crash, " +
 			"is listed per search under bounds.searches.*.alphabet_config); the producer's early save " +
 			"(previous signature in the header, empty argument, data without metadata) followed by the final save (both signatures equal, metadata set) is one of the length-2 histories. " +
+			"values: the VALUE of every single-record write spelled out — set metadata on all six key shapes of the node × {X, Y, empty slice, nil}; update state ∈ {all fields zero, full 1, full 2, genesis-like}, " +
+			"every field of the state compared; set height 0 and 1; blocks at height 0 and 1 that are full or consist of empty parts only (no signatures, data that marshals to the empty value), getters called on heights 0..1; reopen; " +
+			"crash before the durable write of each metadata value under key l, of the zero and genesis-like state, of both block shapes at height 0. A read after an empty write must succeed with a zero-length value, also after reopen and after a later overwrite in either direction. " +
+			"values-badger: the crash-free part of the values alphabet (fewer keys, see alphabet_config) as every history up to its depth on the real on-disk badger datastore, reopen = Close + open, no merging. " +
 			"Histories are merged when the durable key/value image and the in-memory fields of the store object (reflection hook; none today) are identical; " +
 			"distinct = distinct images over all searches; states/transitions = sums over the searches",
 		Exhaustive: exhaustive, Caps: caps,
-		Bounds: map[string]any{"heights": maxH, "metadata_keys": metaKeys, "searches": perSearch,
+		Bounds: map[string]any{"heights": maxH, "metadata_keys": metaKeys, "metadata_value_kinds": []string{"non-empty X", "non-empty Y", "empty slice", "nil"}, "searches": perSearch,
 			"shapes_per_height": len(allShapes()), "signature_axis_shapes": len(axisShapes())},
 		Extra: map[string]any{"relations_samples": relSamples},
 	})
